@@ -15,7 +15,7 @@ EXPLANATION = (
 )
 BOUNDS = {
     "quick": dict(items="1..3 (n=3: kinds L,C,S; the stub-under-stub kind T only for n<=2)", value_box="targets/data positions in [-1e4,1e4], widths in (0,1000], spacing in [0,50], lower bound in [-1e4,1e4], upper in [-1e4,3e4] (any order)", lineSpacing="2 (never overridden by Force)", decisions_per_path=4000),
-    "thorough": dict(items="1..4 (n=4: kinds L,S with 0/1 bound, kind L with two bounds)", value_box="as quick", decisions_per_path=4000),
+    "thorough": dict(items="1..4 (n=4: kinds L,S, no bound or a lower bound; two bounds with 4 items were measured at about an hour of CPU per configuration and are not registered)", value_box="as quick", decisions_per_path=4000),
 }
 OUTSIDE = ["layers of more than 4 items (3 in the quick tier)", "IEEE-754 rounding inside the solver (floats are exact reals here)", "widths <= 0", "lineSpacing other than 2"]
 ASSUMPTIONS = [
@@ -47,8 +47,7 @@ def _layer_configs(tier):
         return layer.make_configs([1, 2]) + layer.make_configs([3], kinds="LCS")
     c = layer.make_configs([1, 2, 3])
     # four items: labels and stubs, without / with one bound; two bounds for labels only (sharded)
-    c += layer.make_configs([4], walls=("", "l", "r"), kinds="LS", extra=dict(shards=2))
-    c += layer.make_configs([4], walls=("lr",), kinds="L", extra=dict(shards=16))
+    c += layer.make_configs([4], walls=("", "l"), kinds="LS", extra=dict(shards=4))
     return c
 
 
